@@ -133,7 +133,30 @@ def run(req):
                 lines = [l[4:] for l in p.stdout.decode().splitlines() if l.startswith("VEC ")]
                 entry["sub"] = lines if len(lines) == len(anns) else ["X:" + (p.stderr.decode()[-200:].strip().splitlines() or ["?"])[-1][:100]] * len(anns)
             bres.append(entry)
-    return {"rows": res, "nprobes": len(pv), "batches": bres}
+    # churn: nested annotations with the same outer category, array type and dims but DIFFERENT inner categories are loaded, probed,
+    # dropped and garbage-collected in turn, several times: every loaded copy answers like its own original, whatever was loaded
+    # (and freed) before it
+    churn = []
+    if req.get("churn"):
+        import gc
+        specs = [{"cat": c, "arr": "np", "dim": "a", "nest": [["Shaped", "b"]]} for c in ("Int", "Float", "Bool", "UInt", "Complex", "Int8", "Float32")]
+        specs += [{"cat": c, "arr": "np", "dim": "a", "nest": [["Num", "b"]]} for c in ("Int", "Float", "UInt8")]
+        origs = [build(a) for a in specs]
+        wants = [vec(x, pv) for x in origs]
+        for mod, route in ((pickle, "pickle"), (cloudpickle, "cloudpickle")):
+            blobs = [mod.dumps(x) for x in origs]
+            for rnd in range(4):
+                order = list(range(len(specs)))
+                if rnd % 2:
+                    order.reverse()
+                for i in order:
+                    y = mod.loads(blobs[i])
+                    got = vec(y, pv)
+                    if got != wants[i]:
+                        churn.append({"route": route, "round": rnd, "annotation": specs[i], "got": got, "expected": wants[i], "loaded_before": [specs[j]["cat"] for j in order[:order.index(i)]]})
+                    del y
+                    gc.collect()
+    return {"rows": res, "nprobes": len(pv), "batches": bres, "churn": churn}
 
 
 if __name__ == "__main__" and len(sys.argv) > 1 and sys.argv[1] == "--load":
